@@ -9,6 +9,7 @@ from engine import pat
 from engine.util import own_nodes, calls_with_nodes, where, with_exprs
 
 RULES = {
+    "R-08.6": "the effective limit: max_size 0 means the requester's advertised payload (request_payload) when known, else 65535, and is then clamped to [512, 65535] before the renderer is built; the OPT reserve counts every option the renderer will write (no option is skipped)",
     "R-08.1": "every write to the renderer's output happens inside `with self._track_size()` (header back-patches inside _temporarily_seek_to excepted)",
     "R-08.2": "_track_size rolls back to the start of the record set before raising TooBig; _rollback truncates and drops every compression entry at or beyond the rollback point",
     "R-08.3": "Message.to_wire: reserves precede all sections; release_reserved is passed on every path before OPT/TSIG; TC is set exactly under section < ADDITIONAL when truncation is preferred, else TooBig propagates; the header is written after the last change",
@@ -188,6 +189,16 @@ def run(model, rep, tier):
     t = " ".join(src(co.node).split())
     rep.check("size = 11" in t and "size += len(wire) + 4" in t and "if self.pad:" in t and t.count("size += 4") == 1, "R-08.4", co.qualname, where(co, co.node),
               "OPT reserve = 11 + sum(option + 4) + 4 for the padding option header", "OPT reserve no longer accounts for the padding option header", stmt="opt-reserve")
+    rep.check(pat.has(co.node, "for __option in ___opts.options:\n    __wire = __option.to_wire()\n    size += len(__wire) + 4"), "R-08.6", co.qualname, where(co, co.node),
+              "every option of the OPT contributes len(wire) + 4 to the reserve",
+              "the loop over the OPT's options no longer adds len(option wire) + 4 for EVERY option (an option is skipped or counted differently): the renderer still writes all of them, so the reserve is "
+              "short and the padded length is no multiple of the block / TooBig escapes although truncation is preferred", stmt="opt-reserve-every-option")
+    twn = model.func("dns.message.Message.to_wire").node
+    rep.check(pat.has(twn, "if max_size == 0:\n    if self.request_payload != 0:\n        max_size = self.request_payload\n    else:\n        max_size = 65535"), "R-08.6", tw.qualname, where(tw, tw.node),
+              "max_size 0 -> request_payload if known else 65535",
+              "the default limit is no longer (request_payload if non-zero else 65535): e.g. the message's OWN advertised payload limits a re-rendered TCP response", stmt="default-limit")
+    rep.check(pat.has(twn, "if max_size < 512:\n    max_size = 512\nelif max_size > 65535:\n    max_size = 65535\n__r = dns.renderer.Renderer(self.id, self.flags, max_size, ...)"), "R-08.6", tw.qualname, where(tw, tw.node),
+              "the limit is clamped to [512, 65535] and handed to the renderer", "the limit is not clamped to [512, 65535] immediately before the renderer is built with it", stmt="limit-clamp")
     ct = pat.canon_func(model.func("dns.message.Message._compute_tsig_reserve"), ["__f = io.BytesIO()"])
     t = " ".join(src(ct.node).split())
     rep.check("self.tsig.to_wire(f)" in t and "return len(f.getvalue())" in t, "R-08.4", ct.qualname, where(ct, ct.node), "TSIG reserve = uncompressed size of the TSIG RR", "TSIG reserve is no longer the uncompressed size", stmt="tsig-reserve")
@@ -225,6 +236,13 @@ def run(model, rep, tier):
 
 
 WITNESSES = [
+    {"id": "c08-default-limit-from-own-payload", "rule": "R-08.6", "file": "dns/message.py", "expect": "fires",
+     "old": "            if self.request_payload != 0:\n                max_size = self.request_payload", "new": "            if self.payload != 0:\n                max_size = self.payload"},
+    {"id": "c08-reserve-skips-existing-padding", "rule": "R-08.6", "file": "dns/message.py", "expect": "fires",
+     "old": "        for option in opt_rdata.options:\n            wire = option.to_wire()", "new": "        for option in opt_rdata.options:\n            if self.pad and option.otype == dns.edns.OptionType.PADDING:\n                continue\n            wire = option.to_wire()"},
+    {"id": "c08-twin-default-limit-spelled-with-or", "rule": "R-08.6", "file": "dns/message.py", "expect": "silent",
+     "old": "            if self.request_payload != 0:\n                max_size = self.request_payload\n            else:\n                max_size = 65535",
+     "new": "            if not self.request_payload != 0:\n                max_size = 65535\n            else:\n                max_size = self.request_payload"},
     {"id": "c08-padded-opt-loses-payload", "rule": "R-08.4", "file": "dns/renderer.py", "expect": "fires",
      "old": "            opt = _make_opt(ttl, opt_rdata.rdclass, options)  # pyright: ignore", "new": "            opt = _make_opt(flags=ttl, options=options)"},
     {"id": "c08-twin-padded-opt-keywords", "rule": "R-08.4", "file": "dns/renderer.py", "expect": "silent",
